@@ -146,7 +146,8 @@ Proof. vm_compute. reflexivity. Qed.
 (* ================= budget and outcome ================= *)
 
 (* at most three sends to the registry and one token fetch, for every server
-   behaviour; and every outcome has one of the listed causes *)
+   behaviour including sends that fail (transport error, cancelled context: AErr);
+   every outcome has one of the listed causes; a failed send is the last one *)
 Theorem C16_budget :
   forall clean cf c rq script,
     let '(evs, c', r) := do_request clean cf c rq script in
@@ -164,6 +165,7 @@ Theorem C16_valid_credentials_succeed :
     rq_body rq <> BOnce ->
     r <> RErr ENoCred -> r <> RErr EMissing ->
     (forall s, ~ In (s, AFail) evs) ->
+    (forall s, ~ In (s, AErr) evs) ->
     (forall h a hdr, ~ In (SReg h a true, A401 hdr) evs) ->
     (forall s hdr ps, In (s, A401 hdr) evs -> parse_challenge hdr <> Ch SchUnknown ps) ->
     r = RResp false /\ (reg_sends evs <= 3)%nat /\ (fetches evs <= 1)%nat /\
